@@ -64,11 +64,13 @@ pub fn run_fault(tr: &mut Trace, c: &Conc, t: i32, hist: &str, syms: &Syms, dest
             'a' | 'b' => {
                 let (s, o) = if ch == 'a' { (&sa, &oa) } else { (&sb, &ob) };
                 let wr = w.as_mut().unwrap();
+                let n0 = shp.nops();
                 let r = res_of(guarded(|| with_inner!(s, v => wr.write_shape(v), Ok(()))));
                 if r == "ok" {
                     accepted.push(clone_shape(s));
                 }
-                tr.emit(json!({"ev": "fwrite", "shape": o.to_json(), "res": r, "fired": fired_total(&shp, &shx) > f0}));
+                tr.emit(json!({"ev": "fwrite", "shape": o.to_json(), "res": r, "fired": fired_total(&shp, &shx) > f0,
+                               "fxShp": effects_json(&shp.ops()[n0..])}));
             }
             'F' => {
                 let wr = w.as_mut().unwrap();
